@@ -380,7 +380,7 @@ Lemma adf_open_names w a U fuel n rw a1 r :
 Proof.
   intros H. unfold adf_database_open.
   assert (G : forall k,
-     (let '(a1', oi) := adfi_open_file a n (os_open_ok k rw) in
+     (let '(a1', oi) := adfi_open_file a n (if header_ok k then Some (file_attr w n) else None) (os_open_ok k rw) in
          match oi with
          | None => Some (a1', None)
          | Some i => if header_ok k then Some (a1', Some i)
@@ -389,8 +389,8 @@ Proof.
                           | Some (a2, _) => Some (a2, None)
                           end
          end) = Some (a1, r) -> names_kept U a a1).
-  { intros k. destruct (adfi_open_file a n (os_open_ok k rw)) as [a1' [i|]] eqn:Op;
-      pose proof (adfi_open_file_spec _ _ _ _ _ Op) as Sp; simpl in Sp.
+  { intros k. destruct (adfi_open_file a n (if header_ok k then Some (file_attr w n) else None) (os_open_ok k rw)) as [a1' [i|]] eqn:Op;
+      pose proof (adfi_open_file_spec _ _ _ _ _ _ Op) as Sp; simpl in Sp.
     - destruct Sp as (Z & Li & E1 & E2 & El). pose proof (open_inv _ _ _ _ _ _ H Z E1 E2 El) as Hi.
       assert (K1 : names_kept U a a1').
       { intros idx Hin. rewrite E2; auto. intros ->. exact (in_U_in_use _ _ _ _ H Hin Z). }
@@ -760,7 +760,7 @@ Proof.
 Qed.
 
 (* non-vacuity: eight files open at once, opened and closed in an interleaved order with slot reuse and table growth *)
-Definition w8 : world := mkW (repeat KOk 8) [(0, 1); (2, 1)] [].
+Definition w8 : world := mkW (repeat KOk 8) [(0, 1); (2, 1)] [] [].
 Definition ops8 : list op :=
   [OOpen 0 false; OOpen 1 true; OOpen 2 false; OClose 2; OOpen 3 false; OOpen 4 false; OOpen 5 true; OOpen 6 false;
    OOpen 7 false; OWalk 1 [(1, false)]; OOpen 2 false; OWalk 2 [(1, false)]; OClose 1; OOpen 0 true].
@@ -806,4 +806,333 @@ Proof.
     - destruct (Nat.eqb (in_use (slot_at a i)) 0); [apply orb_true_r|discriminate].
     - apply orb_true_intro. left. apply Nat.leb_le. lia. }
   rewrite B. unfold cm_step. simpl. reflexivity.
+Qed.
+
+(* ============================================================================================ per-slot attributes *)
+(* ADF_file[i] also holds attributes of the file (old_version = legacy layout, format / os_size letters, link separator,
+   pending version update).  A close leaves them in the entry; ADFI_open_file reassigns every one of them when it hands the
+   entry out again.  Invariant, for BOTH variants and every session: an entry in use that holds a valid file has exactly the
+   attributes that file's OWN header determines -- whatever files lived in the entry before. *)
+Record AInv (w : world) (a : adf) : Prop := mkAInv {
+  ai_len : length (amem a) = length (tab a);
+  ai_nw : forall j, in_use (slot_at a j) = 0 -> fname (slot_at a j) = None;
+  ai_own : forall j n, in_use (slot_at a j) <> 0 -> fname (slot_at a j) = Some n -> kind_of w n = KOk ->
+                       attr_at a j = file_attr w n
+}.
+
+Lemma AInv_init w : AInv w (mkadf [] [] None []).
+Proof.
+  constructor; simpl; auto.
+  - intros j _. unfold slot_at. simpl. destruct j; reflexivity.
+  - intros j n H. exfalso. apply H. unfold slot_at. simpl. destruct j; reflexivity.
+Qed.
+
+(* every slot is unchanged, or cleared, or keeps its name while in use *)
+Definition sk (a a' : adf) : Prop :=
+  forall j, slot_at a' j = slot_at a j \/ slot_at a' j = free_slot \/
+            (fname (slot_at a' j) = fname (slot_at a j) /\ in_use (slot_at a' j) <> 0).
+
+Lemma AInv_sk w a a' : sk a a' -> amem a' = amem a -> length (tab a') = length (tab a) -> AInv w a -> AInv w a'.
+Proof.
+  intros K Em El [L NW OW]. constructor.
+  - rewrite Em, El. exact L.
+  - intros j Hz. destruct (K j) as [E|[E|[_ E]]]; [rewrite E in *; auto|rewrite E; reflexivity|contradiction].
+  - intros j n Hu Hn Hk. unfold attr_at. rewrite Em. destruct (K j) as [E|[E|[En _]]].
+    + rewrite E in *. apply OW; auto.
+    + rewrite E in Hu. simpl in Hu. congruence.
+    + rewrite En in Hn. apply OW; auto. intros Hz. rewrite (NW j Hz) in Hn. discriminate.
+Qed.
+
+Lemma AInv_set_cache w a c : AInv w a -> AInv w (set_cache a c).
+Proof. intros H. apply (AInv_sk w a); auto. intros j. left. reflexivity. Qed.
+
+Lemma set_slot_length a i s : length (tab (set_slot a i s)) = length (tab a).
+Proof. unfold set_slot. simpl. apply upd_length. Qed.
+
+Lemma AInv_set_in_use w a i k : k <> 0 -> AInv w a -> AInv w (set_in_use a i k).
+Proof.
+  intros Hk H. apply (AInv_sk w a); auto; [|apply set_slot_length].
+  intros j. rewrite slot_set_in_use. destruct (Nat.eqb j i && (i <? length (tab a))) eqn:C; [|left; reflexivity].
+  apply andb_prop in C. destruct C as [C _]. apply Nat.eqb_eq in C. subst. right. right. simpl. auto.
+Qed.
+
+Lemma AInv_really_close w a i : AInv w a -> AInv w (really_close a i).
+Proof.
+  intros H. apply (AInv_sk w a); auto; [|unfold really_close; simpl; apply upd_length].
+  intros j. destruct (Nat.eq_dec j i) as [->|Hne].
+  - destruct (Nat.lt_ge_cases i (length (tab a))).
+    + right. left. apply slot_really_close_eq. auto.
+    + left. unfold really_close, slot_at. simpl. rewrite upd_out by lia. reflexivity.
+  - left. apply slot_really_close_neq. auto.
+Qed.
+
+Lemma AInv_free_if_idle w a : AInv w a -> AInv w (free_if_idle a).
+Proof.
+  intros H. unfold free_if_idle. destruct (forallb _ _); [|exact H]. constructor; simpl; auto.
+  - intros j _. unfold slot_at. simpl. destruct j; reflexivity.
+  - intros j n Hu. exfalso. apply Hu. unfold slot_at. simpl. destruct j; reflexivity.
+Qed.
+
+Lemma cm_step_AInv w v m m' : AInv w (cm_a m) -> cm_step v m = inl m' -> AInv w (cm_a m').
+Proof.
+  intros H St. unfold cm_step in St. destruct m as [a stk e]. simpl in *.
+  destruct stk as [|[i|i k] rest]; [discriminate| |].
+  - destruct ((length (tab a) <=? i) || Nat.eqb (in_use (slot_at a i)) 0) eqn:B; [inversion St; exact H|].
+    apply orb_false_elim in B. destruct B as [_ B]. apply Nat.eqb_neq in B.
+    destruct v; [inversion St; exact H|].
+    destruct (Nat.eqb_spec (in_use (slot_at a i)) 1); inversion St; simpl; [exact H|].
+    apply AInv_free_if_idle. apply AInv_set_in_use; auto. lia.
+  - destruct (k <? length (links (slot_at a i))); [inversion St; exact H|].
+    destruct (Nat.eqb_spec (in_use (slot_at a i)) 0); [inversion St; exact H|].
+    destruct (Nat.eqb_spec (in_use (slot_at a i) - 1) 0); inversion St; simpl.
+    + apply AInv_free_if_idle. apply AInv_really_close. exact H.
+    + apply AInv_free_if_idle. apply AInv_set_in_use; auto.
+Qed.
+
+Lemma cm_run_AInv w v fuel : forall m a' e, AInv w (cm_a m) -> loopN (cm_step v) fuel m = inr (a', e) -> AInv w a'.
+Proof.
+  induction fuel as [|fuel IH]; intros m a' e H Run; [discriminate|].
+  simpl in Run. destruct (cm_step v m) as [m'|r] eqn:St.
+  - eapply IH; [|exact Run]. eapply cm_step_AInv; eauto.
+  - inversion Run; subst. unfold cm_step in St. destruct (cm_stk m) as [|[i|i k] rest].
+    + inversion St; subst. exact H.
+    + destruct (_ || _); [discriminate|]. destruct v; [discriminate|]. destruct (Nat.eqb _ 1); discriminate.
+    + destruct (_ <? _); [discriminate|]. destruct (Nat.eqb _ 0); [discriminate|]. destruct (Nat.eqb _ 0); discriminate.
+Qed.
+
+Lemma close_AInv w v fuel a i a' e : AInv w a -> adfi_close_file v fuel a i = Some (a', e) -> AInv w a'.
+Proof.
+  intros H. unfold adfi_close_file. destruct (loopN _ _ _) as [|[a1 e1]] eqn:Run; [discriminate|].
+  intros Q. inversion Q; subst. exact (cm_run_AInv w v fuel (mkcm a [FEnter i] 0) _ _ H Run).
+Qed.
+
+Lemma read_header_init l : read_header (Some (layout_attr l)) (reset_attr zero_attr) = layout_attr l.
+Proof. destruct l; reflexivity. Qed.
+
+Lemma nth_upd_attr (m : list fattr) i j x : nth j (upd m i x) zero_attr = if Nat.eqb j i && (i <? length m) then x else nth j m zero_attr.
+Proof.
+  destruct (Nat.eqb_spec j i) as [->|Hne]; simpl.
+  - destruct (Nat.ltb_spec i (length m)); [apply nth_upd_eq; auto|rewrite upd_out by lia; reflexivity].
+  - apply nth_upd_neq. auto.
+Qed.
+
+(* THE ENTRY HANDED OUT: whatever the table, the ledger, the cache and the attribute memory were before, the attributes of
+   the entry ADFI_open_file fills are those of a reset entry updated from the file's header -- nothing of the previous
+   occupant survives *)
+Lemma open_slot_fields_initialised a n hdr a1 i :
+  length (amem a) = length (tab a) -> adfi_open_file a n hdr true = (a1, Some i) ->
+  attr_at a1 i = read_header hdr init_attr.
+Proof.
+  intros L. unfold adfi_open_file. destruct (find_free_spec (tab a)) as [F1 _].
+  set (i0 := find_free (tab a)) in *.
+  destruct (MAXIMUM_FILES <? i0); [discriminate|]. intros Q. inversion Q; subst. unfold attr_at. simpl.
+  rewrite nth_upd_attr, Nat.eqb_refl. simpl.
+  destruct (Nat.ltb_spec i0 (length (tab a))) as [Hlt|Hge]; simpl.
+  - destruct (Nat.ltb_spec i0 (length (amem a))); [reflexivity|lia].
+  - rewrite app_length, ?repeat_length. unfold ADF_FILE_INC. simpl.
+    match goal with |- context [?x <? ?y] => destruct (Nat.ltb_spec x y); [reflexivity|lia] end.
+Qed.
+
+Lemma adfi_open_AInv w a n k rw a1 r : k = kind_of w n -> AInv w a ->
+  adfi_open_file a n (if header_ok k then Some (file_attr w n) else None) (os_open_ok k rw) = (a1, r) -> AInv w a1.
+Proof.
+  intros Hk H Op. pose proof H as [L NW OW].
+  pose proof (adfi_open_file_spec _ _ _ _ _ _ Op) as Sp.
+  unfold adfi_open_file in Op. destruct (find_free_spec (tab a)) as [F1 _].
+  set (i := find_free (tab a)) in *.
+  set (grow := negb (i <? length (tab a))) in *.
+  set (t1 := if grow then tab a ++ repeat free_slot ADF_FILE_INC else tab a) in *.
+  set (m1 := if grow then amem a ++ repeat zero_attr ADF_FILE_INC else amem a) in *.
+  assert (Lm : length m1 = length t1).
+  { unfold m1, t1. destruct grow; [rewrite !app_length, !repeat_length|]; lia. }
+  assert (Nm : forall j, j < length (tab a) -> nth j m1 zero_attr = nth j (amem a) zero_attr).
+  { intros j Hj. unfold m1. destruct grow; [apply app_nth1; lia|reflexivity]. }
+  assert (S1 : forall j led c am, slot_at (mkadf t1 led c am) j = slot_at a j).
+  { intros j led c am. unfold t1. destruct grow; [|reflexivity]. rewrite slot_at_app_free. reflexivity. }
+  assert (Li : i < length t1).
+  { unfold t1, grow. destruct (Nat.ltb_spec i (length (tab a))); cbn [negb]; [lia|]. rewrite app_length, repeat_length. unfold ADF_FILE_INC. lia. }
+  assert (Keep : forall led c (x : unit), AInv w (mkadf t1 led c m1) /\ True).
+  { intros led c x. split; auto. constructor; simpl; auto.
+    - intros j. rewrite S1. apply NW.
+    - intros j n0 Hu Hn Hk0. rewrite S1 in Hu, Hn. unfold attr_at. simpl. rewrite Nm by (apply in_use_lt; exact Hu). apply OW; auto. }
+  destruct (MAXIMUM_FILES <? i); [inversion Op; subst; apply (proj1 (Keep _ _ tt))|].
+  destruct (os_open_ok k rw); inversion Op; subst; clear Op; destruct Sp as [Sp1 Sp2].
+  - (* success *)
+    destruct Sp2 as (Li2 & E1 & E2 & _). constructor; simpl.
+    + rewrite !upd_length. exact Lm.
+    + intros j Hz. destruct (Nat.eq_dec j i) as [->|Hne]; [rewrite E1 in Hz; simpl in Hz; lia|]. rewrite E2 in * by auto. auto.
+    + intros j n0 Hu Hn Hk0. unfold attr_at. simpl. rewrite nth_upd_attr.
+      destruct (Nat.eq_dec j i) as [->|Hne].
+      * rewrite Nat.eqb_refl. destruct (Nat.ltb_spec i (length m1)); [|lia]. simpl.
+        rewrite E1 in Hn. simpl in Hn. inversion Hn; subst. rewrite Hk0. simpl.
+        unfold file_attr. unfold reset_attr. apply (read_header_init (nth n0 (layouts w) LNative)).
+      * destruct (Nat.eqb_spec j i); [contradiction|]. simpl. rewrite E2 in Hu, Hn by auto.
+        rewrite Nm by (apply in_use_lt; exact Hu). apply OW; auto.
+  - (* Error_Exit *)
+    constructor; simpl.
+    + rewrite !upd_length. exact Lm.
+    + intros j Hz. destruct (Nat.eq_dec j i) as [->|Hne]; [rewrite slot_at_upd_eq by exact Li; reflexivity|].
+      rewrite slot_at_upd_neq in * by auto. rewrite S1 in *. auto.
+    + intros j n0 Hu Hn Hk0. destruct (Nat.eq_dec j i) as [->|Hne]; [rewrite slot_at_upd_eq in Hu by exact Li; simpl in Hu; congruence|].
+      rewrite slot_at_upd_neq in Hu, Hn by auto. rewrite S1 in Hu, Hn. unfold attr_at. simpl. rewrite nth_upd_attr.
+      destruct (Nat.eqb_spec j i); [contradiction|]. simpl. rewrite Nm by (apply in_use_lt; exact Hu). apply OW; auto.
+Qed.
+
+Lemma adf_open_AInv w v fuel a n rw a1 r : AInv w a -> adf_database_open v fuel w a n rw = Some (a1, r) -> AInv w a1.
+Proof.
+  intros H. unfold adf_database_open.
+  assert (G : forall k, k = kind_of w n ->
+     (let '(a1', oi) := adfi_open_file a n (if header_ok k then Some (file_attr w n) else None) (os_open_ok k rw) in
+         match oi with
+         | None => Some (a1', None)
+         | Some i => if header_ok k then Some (a1', Some i)
+                     else match adfi_close_file v fuel a1' i with
+                          | None => None
+                          | Some (a2, _) => Some (a2, None)
+                          end
+         end) = Some (a1, r) -> AInv w a1).
+  { intros k Hk. destruct (adfi_open_file a n _ (os_open_ok k rw)) as [a1' [i|]] eqn:Op;
+      pose proof (adfi_open_AInv _ _ _ _ _ _ _ Hk H Op) as H1.
+    - destruct (header_ok k); [intros Q; inversion Q; subst; exact H1|].
+      destruct (adfi_close_file v fuel a1' i) as [[a2 e]|] eqn:Cl; [|discriminate].
+      intros Q. inversion Q; subst. eapply close_AInv; eauto.
+    - intros Q. inversion Q; subst. exact H1. }
+  destruct (kind_of w n) eqn:K; try (apply (G _ eq_refl)). intros Q. inversion Q; subst. exact H.
+Qed.
+
+Lemma link_add_AInv w a f l b : in_use (slot_at a f) <> 0 -> AInv w a -> AInv w (link_add a f l b).
+Proof.
+  intros Hf H. unfold link_add. destruct (Nat.eqb f l); [exact H|]. destruct (existsb _ _); [exact H|].
+  set (a1 := set_slot a f _).
+  assert (H1 : AInv w a1).
+  { apply (AInv_sk w a); auto; [|apply set_slot_length]. intros j. destruct (Nat.eq_dec j f) as [->|Hne].
+    - destruct (Nat.lt_ge_cases f (length (tab a))).
+      + right. right. unfold a1. rewrite slot_set_slot_eq by auto. simpl. auto.
+      + left. unfold a1, set_slot, slot_at. simpl. rewrite upd_out by lia. reflexivity.
+    - left. unfold a1. apply slot_set_slot_neq. auto. }
+  destruct b; [|exact H1]. apply AInv_set_in_use; auto. lia.
+Qed.
+
+Lemma chase_AInv w v fuel a cur n dang a' r : AInv w a -> chase v fuel w a cur n dang = Some (a', r) -> AInv w a'.
+Proof.
+  intros H. unfold chase.
+  destruct ((length (tab a) <=? cur) || Nat.eqb (in_use (slot_at a cur)) 0) eqn:Bad; [intros Q; inversion Q; subst; exact H|].
+  apply orb_false_elim in Bad. destruct Bad as [_ Bu]. apply Nat.eqb_neq in Bu.
+  destruct (fname (slot_at a cur)) as [nm|]; [|intros Q; inversion Q; subst; exact H].
+  destruct (if dang then has_dlink w nm n else has_link w nm n); simpl; [|intros Q; inversion Q; subst; exact H].
+  destruct (match lcache a with
+            | Some (c, m, li) => if Nat.eqb c cur && Nat.eqb m n && negb dang then Some li else None
+            | None => None
+            end) as [hli|].
+  { destruct ((length (tab a) <=? hli) || Nat.eqb (in_use (slot_at a hli)) 0); intros Q; inversion Q; subst; exact H. }
+  assert (G : match find_name (tab a) n with
+        | Some li => let a1 := link_add a cur li true in
+                     if dang then Some (a1, None) else Some (set_cache a1 (Some (cur, n, li)), Some li)
+        | None => match adf_database_open v fuel w a n true with
+                  | None => None
+                  | Some (a1, None) => Some (a1, None)
+                  | Some (a1, Some li) => let a2 := link_add a1 cur li false in
+                                          if dang then Some (a2, None) else Some (set_cache a2 (Some (cur, n, li)), Some li)
+                  end
+        end = Some (a', r) -> AInv w a').
+  { destruct (find_name (tab a) n) as [li|].
+    - pose proof (link_add_AInv w a cur li true Bu H) as H1.
+      simpl. destruct dang; intros Q; inversion Q; subst; [exact H1|apply AInv_set_cache; exact H1].
+    - destruct (adf_database_open v fuel w a n true) as [[a1 [li|]]|] eqn:Op; [| |discriminate].
+      + pose proof (adf_open_AInv _ _ _ _ _ _ _ _ H Op) as H1.
+        (* cur is still in use in a1: the open filled a slot that was free *)
+        assert (Bu1 : in_use (slot_at a1 cur) <> 0).
+        { unfold adf_database_open in Op. destruct (kind_of w n) eqn:K; try discriminate;
+            (destruct (adfi_open_file a n _ _) as [a1' [i|]] eqn:Of; [|discriminate];
+             pose proof (adfi_open_file_spec _ _ _ _ _ _ Of) as (Z & _ & _ & E2 & _); simpl in Op;
+             first [ inversion Op; subst; rewrite E2; [exact Bu|intros ->; congruence]
+                   | destruct (adfi_close_file v fuel a1' i) as [[? ?]|]; discriminate ]). }
+        pose proof (link_add_AInv w a1 cur li false Bu1 H1) as H2.
+        simpl. destruct dang; intros Q; inversion Q; subst; [exact H2|apply AInv_set_cache; exact H2].
+      + intros Q. inversion Q; subst. exact (adf_open_AInv _ _ _ _ _ _ _ _ H Op). }
+  destruct (kind_of w n); try exact G; intros Q; inversion Q; subst; exact H.
+Qed.
+
+Lemma walk_AInv w v fuel chain : forall a cur a' ok, AInv w a -> walk v fuel w a cur chain = Some (a', ok) -> AInv w a'.
+Proof.
+  induction chain as [|[n dang] r IH]; intros a cur a' ok H; simpl.
+  - intros Q. inversion Q; subst. exact H.
+  - destruct (chase v fuel w a cur n dang) as [[a1 [li|]]|] eqn:Ch; [| |discriminate].
+    + intros Q. eapply IH; [|exact Q]. eapply chase_AInv; eauto.
+    + intros Q. inversion Q; subst. eapply chase_AInv; eauto.
+Qed.
+
+Lemma cgio_open_AInv w v fuel s n rw s1 c : AInv w (io_adf s) -> cgio_open_file v fuel w s n rw = Some (s1, c) -> AInv w (io_adf s1).
+Proof.
+  intros H. unfold cgio_open_file.
+  assert (G : match adf_database_open v fuel w (io_adf s) n rw with
+         | None => None
+         | Some (a1, None) => Some (mkio a1 (iol s) (nopen s), None)
+         | Some (a1, Some idx) =>
+             let l0 := match iol s with [] => repeat None 5 | l => l end in
+             let k := first_none l0 in
+             let l1 := if k <? length l0 then l0 else l0 ++ [None] in
+             Some (mkio a1 (upd l1 k (Some idx)) (S (nopen s)), Some (S k))
+         end = Some (s1, c) -> AInv w (io_adf s1)).
+  { destruct (adf_database_open v fuel w (io_adf s) n rw) as [[a1 [idx|]]|] eqn:Op; [| |discriminate];
+      intros Q; inversion Q; subst; simpl; eapply adf_open_AInv; eauto. }
+  destruct (kind_of w n); try exact G; intros Q; inversion Q; subst; exact H.
+Qed.
+
+Lemma step_AInv w v fuel s o s' r : AInv w (io_adf s) -> step v fuel w s o = Some (s', r) -> AInv w (io_adf s').
+Proof.
+  intros H. destruct o as [n rw|c ch|c]; simpl.
+  - destruct (cgio_open_file v fuel w s n rw) as [[s1 c]|] eqn:Op; [|discriminate].
+    intros Q. inversion Q; subst. eapply cgio_open_AInv; eauto.
+  - destruct (cgio_walk v fuel w s c ch) as [[s1 ok]|] eqn:Wk; [|discriminate].
+    intros Q. inversion Q; subst. clear Q. revert Wk.
+    unfold cgio_walk. destruct c as [|c1]; [intros Q; inversion Q; subst; exact H|].
+    destruct (nth c1 (iol s) None) as [idx|]; [|intros Q; inversion Q; subst; exact H].
+    destruct (walk v fuel w (io_adf s) idx ch) as [[a1 ok']|] eqn:W; [|discriminate].
+    intros Q. inversion Q; subst. simpl. eapply walk_AInv; eauto.
+  - destruct (cgio_close_file v fuel s c) as [[s1 rc]|] eqn:Cl; [|discriminate].
+    intros Q. inversion Q; subst. clear Q. revert Cl.
+    unfold cgio_close_file. destruct c as [|c1]; [intros Q; inversion Q; subst; exact H|].
+    destruct (length (iol s) <=? c1); [intros Q; inversion Q; subst; exact H|].
+    destruct (nth c1 (iol s) None) as [idx|]; [|intros Q; inversion Q; subst; exact H].
+    destruct (length (tab (io_adf s)) <=? idx); [intros Q; inversion Q; subst; exact H|].
+    destruct (adfi_close_file v fuel (io_adf s) idx) as [[a1 e]|] eqn:Cl; [|discriminate].
+    pose proof (close_AInv _ _ _ _ _ _ _ H Cl) as H1.
+    destruct (Nat.eqb e 0); intros Q; inversion Q; subst; exact H1.
+Qed.
+
+Lemma run_AInv w v fuel ops : forall s pend s' pend' rs,
+  AInv w (io_adf s) -> run v fuel w s pend ops = Some (s', pend', rs) -> AInv w (io_adf s').
+Proof.
+  induction ops as [|o r IH]; intros s pend s' pend' rs H; simpl.
+  - intros Q. inversion Q; subst. exact H.
+  - destruct (step v fuel w s o) as [[s1 x]|] eqn:St; [|discriminate].
+    destruct (run v fuel w s1 (track pend o x) r) as [[[s2 p2] xs]|] eqn:Rn; [|discriminate].
+    intros Q. inversion Q; subst. eapply IH; [|exact Rn]. eapply step_AInv; eauto.
+Qed.
+
+(* every session, both variants: an entry of ADF_file[] in use that holds a valid file has the attributes of that file's
+   own header *)
+Theorem slot_fields_own : forall v w fuel ops s pend rs, run v fuel w io_init [] ops = Some (s, pend, rs) ->
+  forall j n, in_use (slot_at (io_adf s) j) <> 0 -> fname (slot_at (io_adf s) j) = Some n -> kind_of w n = KOk ->
+              attr_at (io_adf s) j = file_attr w n.
+Proof.
+  intros v w fuel ops s pend rs R. exact (ai_own _ _ (run_AInv w v fuel ops io_init [] _ _ _ (AInv_init w) R)).
+Qed.
+
+(* non-vacuity, the directed family of the seeded change C16-4: K (current layout) stays open; X (LEGACY layout) is opened
+   into entry 1 and closed -- the entry keeps old_version = 1 --; Z (current layout) is opened into the same entry and has
+   old_version = 0 *)
+Definition w4 : world := mkW [KOk; KOk; KOk] [] [] [LNative; LLegacy; LBig].
+Lemma layout_example :
+  exists s1 s2 p1 p2 r1 r2,
+    run Cur 100 w4 io_init [] [OOpen 0 false; OOpen 1 false; OClose 2] = Some (s1, p1, r1) /\
+    in_use (slot_at (io_adf s1) 1) = 0 /\ a_old (attr_at (io_adf s1) 1) = true /\
+    run Cur 100 w4 io_init [] [OOpen 0 false; OOpen 1 false; OClose 2; OOpen 2 true] = Some (s2, p2, r2) /\
+    fname (slot_at (io_adf s2) 1) = Some 2 /\ attr_at (io_adf s2) 1 = layout_attr LBig /\ a_old (attr_at (io_adf s2) 1) = false.
+Proof.
+  destruct (run Cur 100 w4 io_init [] [OOpen 0 false; OOpen 1 false; OClose 2]) as [[[s1 p1] r1]|] eqn:E1; [|vm_compute in E1; discriminate].
+  destruct (run Cur 100 w4 io_init [] [OOpen 0 false; OOpen 1 false; OClose 2; OOpen 2 true]) as [[[s2 p2] r2]|] eqn:E2; [|vm_compute in E2; discriminate].
+  vm_compute in E1, E2. inversion E1; inversion E2; subst. clear E1 E2.
+  do 6 eexists. repeat split; reflexivity.
 Qed.
